@@ -485,11 +485,13 @@ C11_recorded_transition(d, h1, prev, step) ==
 (* a task on offer whose action / input / items / concurrency / delay cannot be rendered *)
 RenderBad(d, t) == t \in TaskNames(d) /\ d.tasks[t].bad # ""
 C11_recorded_render(d, h0, prev, step) ==
-  (step.obs.q /\ prev.wf \in RunningSt /\ ~h0.rerun) =>
+  (step.obs.q /\ prev.wf \in RunningSt) =>
      \A t \in TaskNames(d) :
-        (RenderBad(d, t) /\ h0.tok[t] > 0 /\ \E i \in 1..Len(prev.staged) : prev.staged[i].id = t /\ prev.staged[i].ready) =>
+        (RenderBad(d, t) /\ \E i \in 1..Len(prev.staged) :
+                               prev.staged[i].id = t /\ prev.staged[i].ready /\ ~prev.staged[i].completed) =>
            /\ ErrNames(step.obs, {k \in 1..Len(step.obs.errs) : step.obs.errs[k].cls = "expr"}, t, "none")
            /\ step.obs.offers = << >>
+           /\ step.obs.wf = "failed"
 (* retry policy expressions are evaluated when the task starts (count, delay) and completes (when) *)
 C11_recorded_retry(d, h1, prev, step) ==
   /\ (IsNewExec(prev, step) /\ step.call.task \in TaskNames(d) /\ d.tasks[step.call.task].rbad # ""
@@ -502,7 +504,8 @@ C11_failed(prev, step) ==
   NewErrs(prev, step.obs, "expr") # {} =>
      \/ step.obs.wf = "failed"
      \/ prev.wf = "canceled" /\ step.obs.wf = "canceled"
-C11_no_offer_after(step) == (step.obs.q /\ HasErr(step.obs, "expr")) => step.obs.offers = << >>
+(* (an accepted rerun resumes the workflow; error entries of tasks it does not cover remain) *)
+C11_no_offer_after(h1, step) == (step.obs.q /\ HasErr(step.obs, "expr") /\ ~h1.rerun) => step.obs.offers = << >>
 
 (* C12: with-items. *)
 ItemOffers(d, step) == {i \in 1..Len(step.obs.offers) : step.obs.offers[i].nitems >= 0}
@@ -684,7 +687,7 @@ Failing(d, h0, h1, prev, step) ==
   FP("C11", "C11_recorded_render", C11_recorded_render(d, h0, prev, step)) \cup
   FP("C11", "C11_recorded_retry",  C11_recorded_retry(d, h1, prev, step)) \cup
   FP("C11", "C11_failed",          C11_failed(prev, step)) \cup
-  FP("C11", "C11_no_offer_after",  C11_no_offer_after(step)) \cup
+  FP("C11", "C11_no_offer_after",  C11_no_offer_after(h1, step)) \cup
   FP("C12", "C12_shape",           C12_shape(d, step)) \cup
   FP("C12", "C12_once",            C12_once(d, h1, step)) \cup
   FP("C12", "C12_order",           C12_order(d, h1, step)) \cup
